@@ -122,6 +122,23 @@ func (vc *VC) contractLoopTargets(cc *ssa.CallCommon) ([]staticTarget, []string,
 			}
 			return nil, nil, false
 		case *ESel:
+			if c, isC := x.X.(*ECall); isC && c.Fn == "any" && len(c.Args) == 1 {
+				ev := &Eval{vc: vc, env: map[string]EVal{}, bound: map[string]EVal{}}
+				T, err := ev.resolveTypeName(c.Args[0])
+				if err != nil {
+					return nil, nil, false
+				}
+				id, isBase := vc.baseType(T)
+				path, ft, okf := findField(T, x.Name)
+				if !isBase || !okf || len(path) != 1 {
+					return nil, nil, false
+				}
+				off, _ := vc.L.FieldOffset(T.Underlying().(*types.Struct), path[0])
+				for i, l := range vc.L.Leaves(ft) {
+					out = append(out, staticTarget{l.Sort, id, off + i})
+				}
+				continue
+			}
 			bt := typeOf(x.X)
 			if bt == nil {
 				return nil, nil, false
